@@ -114,6 +114,11 @@ theorem mulChecked_gen (a b : Nat) : Math.Overflow.aws_mul_u64_checked a b = res
     simp only [h, h2, if_false]
     rw [Nat.mod_eq_of_lt (by omega)]
 
+/-- growth step bounds of `s_byte_buf_init_from_file_impl` (macros of source/file.c) -/
+theorem fileGrowth_gen :
+    MIN_BUFFER_GROWTH_READING_FILES = ByteBufFns.MIN_BUFFER_GROWTH_READING_FILES ∧
+    MAX_BUFFER_GROWTH_READING_FILES = ByteBufFns.MAX_BUFFER_GROWTH_READING_FILES := by decide
+
 theorem addU64Checked_gen (a b : Nat) : Math.Overflow.aws_add_u64_checked a b = resOfOption (addChecked a b) :=
   addChecked_gen a b
 
